@@ -322,7 +322,7 @@ func (fr *Frame) heldObligation(st *State, base *Term, field, lock string, write
 	} else {
 		goal = Ge(Select(ls, lref), IntLit(1))
 	}
-	ex.assert(st, "held", lock+"@"+field+":"+mode+":"+fr.fn.Name()+fr.siteSuffix(pos), ex.w.lockTags, goal, fr.pos(pos))
+	ex.assert(st, "held", lock+"@"+field+":"+mode+":"+fr.fn.Name()+fr.siteSuffix("held:"+field+":"+mode+":"+fr.fn.Name()), ex.w.lockTags, goal, fr.pos(pos))
 }
 
 func (fr *Frame) guardCheckMap(st *State, m ssa.Value, write bool, pos token.Pos) {
@@ -364,8 +364,88 @@ func (w *World) namedStruct(name string) types.Type {
 }
 
 // lockHavoc / lockGuarantee implement the two-state lock relation (lockrely).
-func (fr *Frame) lockHavoc(st *State, l Val, pos token.Pos)     {}
-func (fr *Frame) lockGuarantee(st *State, l Val, pos token.Pos) {}
+// lockRelyCell locates the heap cell of a lock-protected field of the object the lock belongs to.
+func (fr *Frame) lockRelyCell(st *State, l Val, lr LockRely) (comp, cs string, base *Term, vt types.Type, ok bool) {
+	ex := fr.ex
+	parts := strings.SplitN(lr.Field, ".", 2)
+	stt := ex.w.namedStruct(parts[0])
+	if stt == nil || len(parts) != 2 {
+		ex.note("STALE-CONTRACT: lockrely: type of %s not found", lr.Field)
+		return
+	}
+	u := stt.Underlying().(*types.Struct)
+	for i := 0; i < u.NumFields(); i++ {
+		if u.Field(i).Name() == parts[1] {
+			comp, cs = ex.fieldComp(stt, i)
+			vt = u.Field(i).Type()
+			ok = true
+		}
+	}
+	if !ok {
+		ex.note("STALE-CONTRACT: lockrely: field %s not found", lr.Field)
+		return
+	}
+	if strings.HasPrefix(l.T.Op, "sub_") && len(l.T.Args) == 1 {
+		base = l.T.Args[0]
+	} else {
+		ok = false
+	}
+	return
+}
+
+// lockHavoc: on acquiring a lock, the fields it protects hold whatever the other threads' critical
+// sections left there -- any value related to the last one this thread saw by the declared rely.
+func (fr *Frame) lockHavoc(st *State, l Val, pos token.Pos) {
+	ex := fr.ex
+	for _, lr := range ex.w.lockRelies[l.Origin] {
+		comp, cs, base, vt, ok := fr.lockRelyCell(st, l, lr)
+		if !ok {
+			continue
+		}
+		ex.trusted["lock-protected field "+lr.Field+": other threads' critical sections change it only "+lr.Rel+" (each thread's own sections are checked against the same guarantee)"] = true
+		h := ex.get(st, comp, cs)
+		cur := Select(h, base)
+		nv := ex.ctx.Fresh("env."+sanitize(lr.Field), SInt)
+		ex.assume(st, ex.typeFacts(nv, vt))
+		switch lr.Rel {
+		case "nondecreasing":
+			ex.assume(st, Ge(nv, cur))
+		default:
+			ex.unsupported("unknown lockrely relation %s", lr.Rel)
+		}
+		if lr.Ranged {
+			ex.assume(st, And(Le(IntLit(lr.Lo), nv), Le(nv, IntLit(lr.Hi))))
+		}
+		ex.set(st, comp, Store(h, base, nv))
+		// ghost: value of the field when the lock was taken
+		gc := "LockEntry_" + sanitize(lr.Field)
+		ex.set(st, gc, Store(ex.get(st, gc, ArraySort(SRef, SInt)), base, nv))
+	}
+}
+
+// lockGuarantee: on release, this thread's critical section must itself have respected the rely.
+func (fr *Frame) lockGuarantee(st *State, l Val, pos token.Pos) {
+	ex := fr.ex
+	for _, lr := range ex.w.lockRelies[l.Origin] {
+		comp, cs, base, _, ok := fr.lockRelyCell(st, l, lr)
+		if !ok {
+			continue
+		}
+		cur := Select(ex.get(st, comp, cs), base)
+		entry := Select(ex.get(st, "LockEntry_"+sanitize(lr.Field), ArraySort(SRef, SInt)), base)
+		var g *Term
+		switch lr.Rel {
+		case "nondecreasing":
+			g = Ge(cur, entry)
+		default:
+			continue
+		}
+		if lr.Ranged {
+			g = And(g, Le(IntLit(lr.Lo), cur), Le(cur, IntLit(lr.Hi)))
+		}
+		ex.assert(st, "guarantee", lr.Field+":"+lr.Rel+":critical-section@"+fr.fn.Name()+fr.siteSuffix("guar:"+lr.Field+":"+fr.fn.Name()), ex.w.safetyTags, g, fr.pos(pos))
+	}
+}
 
 // ---------------------------------------------------------------- atomics
 
@@ -408,7 +488,7 @@ func (fr *Frame) atomicOp(st *State, op string, args []Val, fn *ssa.Function, po
 		default:
 			ex.unsupported("unknown rely relation %s", rely)
 		}
-		ex.assert(st, "guarantee", recv.Origin+":"+rely+":"+what+"@"+fr.fn.Name(), ex.w.relyTags[recv.Origin], Implies(cond, g), fr.pos(pos))
+		ex.assert(st, "guarantee", recv.Origin+":"+rely+":"+what+"@"+fr.fn.Name(), ex.w.guaranteeTags(recv.Origin), Implies(cond, g), fr.pos(pos))
 	}
 	switch op {
 	case "load":
@@ -417,7 +497,7 @@ func (fr *Frame) atomicOp(st *State, op string, args []Val, fn *ssa.Function, po
 		nv := ex.wrapTo(Add(cur, args[1].T), vt)
 		if _, hi, ok := intRange(vt); ok && isUnsigned(vt) && rely != "" && ex.ghost == 0 {
 			h, _ := newBig(hi)
-			ex.assertCanary(st, "guarantee", recv.Origin+":"+rely+":Add.nowrap@"+fr.fn.Name(), ex.w.relyTags[recv.Origin], Le(Add(cur, args[1].T), BigLit(h)), fr.pos(pos))
+			ex.assertCanary(st, "guarantee", recv.Origin+":"+rely+":Add.nowrap@"+fr.fn.Name(), ex.w.guaranteeTags(recv.Origin), Le(Add(cur, args[1].T), BigLit(h)), fr.pos(pos))
 		}
 		guarantee(nv, TTrue, "Add")
 		ex.set(st, comp, Store(h, recv.T, nv))
@@ -486,4 +566,34 @@ func (ex *Exec) logAppend(st *State, name string, v *Term) {
 	l := ex.get(st, lc, ArraySort(SInt, v.Sort))
 	ex.set(st, lc, Store(l, n, v))
 	ex.set(st, nc, Add(n, IntLit(1)))
+}
+
+// guaranteeTags: a guarantee obligation belongs to the property being checked unless tagged otherwise.
+func (w *World) guaranteeTags(origin string) []string {
+	if t := w.relyTags[origin]; len(t) > 0 {
+		return t
+	}
+	return w.safetyTags
+}
+
+// lockRelyOfComp: the lockrely declaration (if any) whose field lives in heap component comp.
+func (ex *Exec) lockRelyOfComp(comp string) (LockRely, bool) {
+	for _, lrs := range ex.w.lockRelies {
+		for _, lr := range lrs {
+			parts := strings.SplitN(lr.Field, ".", 2)
+			stt := ex.w.namedStruct(parts[0])
+			if stt == nil || len(parts) != 2 {
+				continue
+			}
+			u := stt.Underlying().(*types.Struct)
+			for i := 0; i < u.NumFields(); i++ {
+				if u.Field(i).Name() == parts[1] {
+					if c, _ := ex.fieldComp(stt, i); c == comp && lr.Rel == "nondecreasing" {
+						return lr, true
+					}
+				}
+			}
+		}
+	}
+	return LockRely{}, false
 }
